@@ -15,7 +15,7 @@ The full-strength statement (all programs mypy accepts) is **false** of the curr
 fails inside this fragment are kept visible as theorems with concrete witnesses:
 * `not_soundness_F19`, `not_soundness_F18` — without `WF` (declared-but-unassigned attribute; covariant
   redeclaration of a mutable attribute) `tc` accepts and evaluation ends in AttributeError / TypeError;
-* `hole_union_setattr`, `hole_loop_cap`, `hole_union_isinstance_mi` — the three rules where `tc` deliberately
+* `hole_union_setattr`, `hole_loop_cap`, `hole_union_isinstance_mi`, `hole_masked_assignment` — the rules where `tc` deliberately
   answers `hole k` instead of mypy's "accept" (assignment to an attribute through a union receiver; the 4-pass
   cap of `accept_loop`; isinstance on a union dropping an item that shares a subclass with the tested class):
   well-formed witnesses on which evaluation ends in TypeError / AttributeError.
@@ -263,6 +263,50 @@ def progMI : Prog :=
 theorem hole_union_isinstance_mi :
     WF progMI ∧ tc progMI = .error (.hole 3) ∧
     (evalCall 20 progMI (progMI.funcs[1]!) [] { heap := [], log := [] }).1 = .error .attrError := by
+  decide
+
+/-- `update_from_options` skips a key when no option is flagged `from_assignment`; the snapshot taken at `break`
+    merges the frames with `dict.update`, so the isinstance narrowing (not an assignment) overrides the earlier
+    assignment of the same local and the merge after the loop keeps the stale enclosing type `None`:
+```python
+def f0(p0: int) -> K0:
+    if 0 < p0: return K1()
+    return K0()
+def f1(p0: Optional[K0], p1: int) -> int:
+    v0: int = 0
+    if isinstance(p0, K0): return 0
+    else:
+        while v0 < p1:
+            v0 = v0 + 1
+            p0 = f0(v0)
+            if isinstance(p0, K1): break
+            return 5
+        if p0 is not None: return 1 + "s"      # mypy: p0 is None here, block unreachable
+    return 2
+```
+-/
+def progMaskedAssign : Prog :=
+  let cls (b : List Nat) (mro : List Nat) : ClassDef :=
+    { bases := b, mro := mro, attrs := [], init := { params := [], assigns := [] }, methods := [] }
+  { classes := [cls [] [0], cls [0] [1, 0]],
+    funcs := [
+      { params := [[.int]], locals := [], ret := [.cls 0],
+        body := .seq (.ite (.lt (.intLit 0) (.var 0)) (.ret (.new 1 [])) .pass) (.ret (.new 0 [])) },
+      { params := [[.cls 0, .none], [.int]], locals := [[.int]], ret := [.int],
+        body :=
+          .seq (.decl 2 (.intLit 0)) <|
+          .seq (.ite (.isinst 0 0) (.ret (.intLit 0))
+                 (.seq (.while (.lt (.var 2) (.var 1))
+                         (.seq (.assign 2 (.add (.var 2) (.intLit 1))) <|
+                          .seq (.assign 0 (.callF 0 [.var 2])) <|
+                          .seq (.ite (.isinst 0 1) .brk .pass) <|
+                          .ret (.intLit 5)))
+                       (.ite (.isNone 0 true) (.ret (.add (.intLit 1) (.strLit [115]))) .pass))) <|
+          .ret (.intLit 2) }] }
+
+theorem hole_masked_assignment :
+    WF progMaskedAssign ∧ tc progMaskedAssign = .error (.hole 4) ∧
+    (evalCall 40 progMaskedAssign (progMaskedAssign.funcs[1]!) [.none, .int 3] { heap := [], log := [] }).1 = .error .typeError := by
   decide
 
 /-- multiple inheritance inside the theorem: a diamond `K0; K1(K0); K2(K0); K3(K1, K2)` with `m0` overridden in
